@@ -22,7 +22,9 @@ CHECKS = {
     "C07": hist("MhlDirHash.tla states the compositional definition on Merkle terms over an injective abstract hash and TLC checks, for all trees of a small universe and all single mutations (edit, add, remove, rename of files and folders), the sensitivity relations of the statement and the equivalence with the snapshot signatures used by the core model; on the real code every recorded directory / root hash in all six formats must equal the independent reference evaluator over the non-ignored entries, recorded hashes of successive generations must be equal exactly when the model's signatures are, and verify -dh -co output is judged the same way."),
     "C09": hist("verify -dh is modelled (formats computed, per-directory comparison with every recorded generation, per-format exit rule) and the identical=>0 / changed=>12 / no-internal-error predicates are invariants over sealed trees x single mutations x -n generations x nested histories with differing formats; every replayed verify -dh is judged against generations whose recorded snapshots are known. One open known finding (F4b)."),
     "C12": hist("Pattern accumulation (prefix-preserving, duplicate-free, parent patterns in nested generations) and exclusion (not recorded, not reported, not in directory hashes) are invariants of the model over base-name / glob / directory-name patterns, flat and nested; replayed steps are judged with 'matched' decided by pathspec on the root-relative path and directory hashes by the reference evaluator."),
+    "C13": dict(level="model_checking", text="The mechanism model has no notion of absolute location, argument spelling or enumeration order (its operators take root-relative arguments only), so every real execution of one behaviour must be observationally identical across environments: each TLC-exported behaviour is executed under six environments (ancestors named 'ascmhl' / '.DS_Store' / matching user patterns, deep and shallow mounts, five root spellings, permuted os.listdir/os.scandir) and MhlEnv.tla judges every step group: byte-identical ascmhl folders, equal exit codes and reported paths, and verify = 0 on copies of every successfully sealed tree.", note=HIST_NOTE + " mtimes are pinned before each command.", technique="TLC-exported behaviours replayed under several environment concretisations; grouped observations validated by the TLA+ module MhlEnv (metamorphic conformance)"),
     "C14": hist("Frame conditions: in the model every command leaves the tree untouched and only create/create -sf extend histories; on the real code every command of every campaign is bracketed by complete file-system snapshots (type, SHA-256, size, mtime_ns, mode) and an audit hook that sees every mutating call, and the delta / call list must be within what the model allows for that operation."),
+    "C17": hist("Rename detection is part of the mechanism model (matching of not-found recorded paths with new files by first recorded digest, previous path, rename map followed over generations); TLC checks the C17 predicates over all rename / move sets in scope incl. rename chains and moves into new directories; replayed create -dr / verify / diff steps are judged with the same predicates. One open known finding (F17, recorded under C03)."),
     "C18": hist("The flatten merge rule (earliest non-failed digest per path and format, no directory records, process flatten) and verify -pl outcomes are invariants of the model over flat histories with changing formats, failed entries and partial -sf generations; replayed flatten / verify -pl steps are judged on the independently read packing list."),
     "C19": hist("The info listing (every nested history, generations ascending with creation dates) and the info -sf lines (generation, format, digest, action per recorded entry in the nearest enclosing history) are defined by spec operators; parsed real output must equal them for every history reached."),
 }
